@@ -7,6 +7,7 @@ from typing import List, Optional, Set, Tuple
 
 from ..core import rule
 from ..program import AnalysisError, dotted, src
+from ..dataflow import DefUse, origins
 from ..core import walk_local  # inline-aware
 from .common import where
 from .storelib import facts
@@ -17,34 +18,61 @@ VDIR = "xandikos.store.vdir.VdirStore"
 FIELDS = ("color", "comment", "displayname", "description", "order", "source_url", "type")
 
 
+def _const_at(ctx, fi, du, node, e):
+    """Constant value of *e* at *node*: folded directly, or through local names / parameters bound by an inlined call."""
+    v = ctx.P.try_fold(fi.module, e)
+    if v is not None:
+        return v
+    if isinstance(e, ast.Name):
+        vals = set()
+        for o in origins(du, node, e):
+            if o.kind != "expr" or o.leaf is None or o.path:
+                return None
+            c = ctx.P.try_fold(fi.module, o.leaf)
+            if c is None:
+                return None
+            vals.add(c)
+        if len(vals) == 1:
+            return vals.pop()
+    return None
+
+
 def storage_keys(ctx, fi) -> Set[tuple]:
-    """The storage locations a metadata accessor touches, as constant tuples."""
+    """The storage locations a metadata accessor touches, as constant tuples (helpers unknown to the reference
+    tree are followed: the accessor's CFG contains their bodies)."""
     out: Set[tuple] = set()
-    for n in walk_local(fi.node):
-        # cp["SECTION"]["option"]
-        if isinstance(n, ast.Subscript) and isinstance(n.value, ast.Subscript):
-            base = dotted(n.value.value)
-            if base and base.endswith("_configparser"):
-                sec = ctx.P.try_fold(fi.module, n.value.slice)
-                opt = ctx.P.try_fold(fi.module, n.slice)
-                if isinstance(sec, str) and isinstance(opt, str):
-                    out.add(("cp", sec, opt))
-        if isinstance(n, ast.Call) and isinstance(n.func, ast.Attribute):
-            recv = dotted(n.func.value) or ""
-            m = n.func.attr
-            if recv.split(".")[-1] in ("config", "cp", "_configparser") and m in ("get", "set", "has_option", "remove_option") and len(n.args) >= 2:
-                a = ctx.P.try_fold(fi.module, n.args[0])
-                b = ctx.P.try_fold(fi.module, n.args[1])
-                if a is not None and b is not None:
-                    out.add(("gitconfig", a if not isinstance(a, tuple) else a, b))
-            if m in ("_read_metadata", "_write_metadata") and n.args:
-                a = ctx.P.try_fold(fi.module, n.args[0])
-                if isinstance(a, str):
-                    out.add(("file", a))
-            if recv.endswith("_repo") and m in ("get_description", "set_description"):
-                out.add(("repo-description",))
-            if recv.endswith(".config") and m.startswith(("get_", "set_")):
-                out.add(("delegate", m[4:]))
+    cfg = ctx.cfg(fi)
+    du = DefUse(cfg)
+    for node in cfg.stmt_nodes():
+        for e in node.exprs():
+            for n in ast.walk(e):
+                # cp["SECTION"]["option"]   (also: sect = cp["SECTION"]; sect["option"])
+                if isinstance(n, ast.Subscript):
+                    bases = [n.value]
+                    if isinstance(n.value, ast.Name):
+                        bases = [o.leaf for o in origins(du, node, n.value) if o.kind == "expr" and o.leaf is not None and not o.path]
+                    for b in bases:
+                        if isinstance(b, ast.Subscript) and (dotted(b.value) or "").endswith("_configparser"):
+                            sec = _const_at(ctx, fi, du, node, b.slice)
+                            opt = _const_at(ctx, fi, du, node, n.slice)
+                            if isinstance(sec, str) and isinstance(opt, str):
+                                out.add(("cp", sec, opt))
+                if isinstance(n, ast.Call) and isinstance(n.func, ast.Attribute):
+                    recv = dotted(n.func.value) or ""
+                    m = n.func.attr
+                    if recv.split(".")[-1] in ("config", "cp", "_configparser") and m in ("get", "set", "has_option", "remove_option") and len(n.args) >= 2:
+                        a = _const_at(ctx, fi, du, node, n.args[0])
+                        b = _const_at(ctx, fi, du, node, n.args[1])
+                        if a is not None and b is not None:
+                            out.add(("gitconfig", a if not isinstance(a, tuple) else a, b))
+                    if m in ("_read_metadata", "_write_metadata") and n.args:
+                        a = _const_at(ctx, fi, du, node, n.args[0])
+                        if isinstance(a, str):
+                            out.add(("file", a))
+                    if recv.endswith("_repo") and m in ("get_description", "set_description"):
+                        out.add(("repo-description",))
+                    if recv.endswith(".config") and m.startswith(("get_", "set_")):
+                        out.add(("delegate", m[4:]))
     return out
 
 
